@@ -1,0 +1,264 @@
+//go:build verif
+
+package replication
+
+// Contracts for the building blocks of the table-map and rows-event parsers
+// (properties C09, C15): length-encoded integers, per-type metadata, bitmaps.
+// Layouts are written from the MySQL internals manual (TABLE_MAP_EVENT,
+// ROWS_EVENT, "Protocol::LengthEncodedInteger").
+
+import (
+	"github.com/Breeze0806/gobinlog/internal/vspec"
+)
+
+// ---- length-encoded integer ----
+
+// number of bytes of the encoding that starts with first byte b (0 = b does not start an integer a binlog writer emits)
+func specLenEncSize(b byte) int {
+	switch {
+	case b < 0xfb:
+		return 1
+	case b == 0xfc:
+		return 3
+	case b == 0xfd:
+		return 4
+	case b == 0xfe:
+		return 9
+	}
+	return 0
+}
+
+func specLenEncValue(data []byte, pos int) uint64 {
+	switch data[pos] {
+	case 0xfc:
+		return specLE(data, pos+1, 2)
+	case 0xfd:
+		return specLE(data, pos+1, 3)
+	case 0xfe:
+		return specLE(data, pos+1, 8)
+	}
+	return uint64(data[pos])
+}
+
+func vc_readLenEncInt_requires(data []byte, pos int) bool {
+	return pos >= 0 && pos <= len(data) && (pos == len(data) || specLenEncSize(data[pos]) != 0)
+}
+
+func vc_readLenEncInt_ensures_value(data []byte, pos int, v uint64, next int, ok bool) bool {
+	if pos == len(data) || len(data)-pos < specLenEncSize(data[pos]) {
+		return !ok
+	}
+	return ok && v == specLenEncValue(data, pos) && next == pos+specLenEncSize(data[pos])
+}
+
+// ---- per-type metadata of a table map ----
+
+// bytes of metadata per column type; -1 = type not supported
+func specMetaLen(typ byte) int {
+	switch typ {
+	case TypeDecimal, TypeTiny, TypeShort, TypeLong, TypeNull, TypeTimestamp, TypeLongLong, TypeInt24, TypeDate, TypeTime,
+		TypeDateTime, TypeYear, TypeNewDate:
+		return 0
+	case TypeFloat, TypeDouble, TypeTimestamp2, TypeDateTime2, TypeTime2, TypeJSON, TypeTinyBlob, TypeMediumBlob, TypeLongBlob,
+		TypeBlob, TypeGeometry:
+		return 1
+	case TypeNewDecimal, TypeEnum, TypeSet, TypeString, TypeVarchar, TypeBit, TypeVarString:
+		return 2
+	}
+	return -1
+}
+
+// the metadata value: one byte as is; NEWDECIMAL (precision, scale), ENUM/SET/STRING (real type, length) with the
+// first byte in the high half; VARCHAR/BIT/VAR_STRING little-endian
+func specMeta(data []byte, pos int, typ byte) uint16 {
+	switch typ {
+	case TypeNewDecimal, TypeEnum, TypeSet, TypeString:
+		return uint16(data[pos])<<8 | uint16(data[pos+1])
+	case TypeVarchar, TypeBit, TypeVarString:
+		return uint16(data[pos]) | uint16(data[pos+1])<<8
+	}
+	if specMetaLen(typ) == 1 {
+		return uint16(data[pos])
+	}
+	return 0
+}
+
+func vc_metadataRead_requires(data []byte, pos int, typ byte) bool {
+	return pos >= 0 && pos <= len(data) && len(data)-pos >= specMetaLen(typ)
+}
+
+func vc_metadataRead_ensures_value(data []byte, pos int, typ byte, m uint16, next int, err error) bool {
+	if specMetaLen(typ) < 0 {
+		return err != nil
+	}
+	return err == nil && m == specMeta(data, pos, typ) && next == pos+specMetaLen(typ)
+}
+
+// ---- bitmaps ----
+
+// validity predicate of a Bitmap value: count bits stored in exactly (count+7)/8 bytes
+func specValidBitmap(b *Bitmap) bool {
+	return b.count >= 0 && b.count <= 1<<24 && len(b.data) == (b.count+7)/8
+}
+
+// bit i, least significant bit of each byte first
+func specBit(data []byte, i int) bool {
+	return (data[i>>3]>>(uint(i)&7))&1 == 1
+}
+
+// number of set bits among the first n
+func specPopcount(b *Bitmap, n int) int {
+	if n <= 0 {
+		return 0
+	}
+	if specBit(b.data, n-1) {
+		return specPopcount(b, n-1) + 1
+	}
+	return specPopcount(b, n-1)
+}
+
+func vc_newBitmap_requires(data []byte, pos int, count int) bool {
+	return count >= 0 && count <= 1<<24 && pos >= 0 && pos <= len(data) && len(data)-pos >= (count+7)/8
+}
+
+func vc_newBitmap_ensures_view(data []byte, pos int, count int, bm Bitmap, next int) bool {
+	return bm.count == count && next == pos+(count+7)/8 && vspec.Window(bm.data, data, pos, pos+(count+7)/8) &&
+		len(bm.data) == (count+7)/8
+}
+
+func vc_Bitmap_Count_requires(b *Bitmap) bool             { return b != nil }
+func vc_Bitmap_Count_ensures_count(b *Bitmap, n int) bool { return n == b.count }
+
+func vc_Bitmap_Bit_requires(b *Bitmap, index int) bool {
+	return b != nil && specValidBitmap(b) && index >= 0 && index < b.count
+}
+
+func vc_Bitmap_Bit_ensures_bit(b *Bitmap, index int, res bool) bool {
+	return res == specBit(b.data, index)
+}
+
+func vc_Bitmap_BitCount_requires(b *Bitmap) bool { return b != nil && specValidBitmap(b) }
+
+func vc_Bitmap_BitCount_loop1_inv(i int, sum int, b *Bitmap) bool {
+	return i >= 0 && i <= b.count && sum == specPopcount(b, i)
+}
+
+func vc_Bitmap_BitCount_ensures_popcount(b *Bitmap, n int) bool {
+	return n == specPopcount(b, b.count)
+}
+
+// ---- TABLE_MAP_EVENT body ----
+//   idw   table id (4 bytes when the post-header is 6 bytes long, else 6)
+//   2     flags
+//   1+n+1 database name (length, bytes, NUL)     1+n+1 table name (length, bytes, NUL)
+//   lenenc column count cc | cc type bytes | lenenc metadata length | metadata | (cc+7)/8 nullability bits | optional metadata
+
+// all positions are relative to the body d = ev[headerLength:]
+func specTMdbLenPos(idw int) int { return idw + 2 }
+func specTMnamePos(d []byte, idw int) int {
+	return idw + 2 + 1 + int(d[idw+2]) + 1
+}
+func specTMcountPos(d []byte, idw int) int {
+	p := specTMnamePos(d, idw)
+	return p + 1 + int(d[p]) + 1
+}
+func specTMcount(d []byte, idw int) int { return int(specLenEncValue(d, specTMcountPos(d, idw))) }
+func specTMtypesPos(d []byte, idw int) int {
+	p := specTMcountPos(d, idw)
+	return p + specLenEncSize(d[p])
+}
+func specTMmetaLenPos(d []byte, idw int) int { return specTMtypesPos(d, idw) + specTMcount(d, idw) }
+func specTMmetaLen(d []byte, idw int) int {
+	return int(specLenEncValue(d, specTMmetaLenPos(d, idw)))
+}
+func specTMmetaPos0(d []byte, idw int) int {
+	p := specTMmetaLenPos(d, idw)
+	return p + specLenEncSize(d[p])
+}
+
+// position of the metadata of column c (the metadata of columns 0..c-1 precede it)
+func specTMmetaPos(d []byte, idw int, c int) int {
+	if c <= 0 {
+		return specTMmetaPos0(d, idw)
+	}
+	return specTMmetaPos(d, idw, c-1) + specMetaLen(d[specTMtypesPos(d, idw)+c-1])
+}
+
+// every column type is one the metadata rule knows, and each column's metadata lies inside the body
+func specTMtypesOK(d []byte, idw int, c int) bool {
+	if c <= 0 {
+		return true
+	}
+	return specTMtypesOK(d, idw, c-1) && specMetaLen(d[specTMtypesPos(d, idw)+c-1]) >= 0 &&
+		specTMmetaPos(d, idw, c) <= len(d)
+}
+
+func specTMidw(f BinlogFormat) int {
+	if f.HeaderSizes[19-1] == 6 {
+		return 4
+	}
+	return 6
+}
+
+// the body is a well-formed table map: every field lies inside the buffer, the column types are supported, the
+// metadata block has exactly the announced length and the nullability bitmap follows it
+func specTMWellFormed(d []byte, idw int) bool {
+	if len(d) < idw+3 {
+		return false
+	}
+	pn := specTMnamePos(d, idw)
+	if len(d) < pn+1 {
+		return false
+	}
+	pc := specTMcountPos(d, idw)
+	if len(d) < pc+1 || specLenEncSize(d[pc]) == 0 || len(d) < pc+specLenEncSize(d[pc]) {
+		return false
+	}
+	cc := specLenEncValue(d, pc)
+	if cc > 1<<20 {
+		return false
+	}
+	pm := specTMmetaLenPos(d, idw)
+	if len(d) < pm+1 || specLenEncSize(d[pm]) == 0 || len(d) < pm+specLenEncSize(d[pm]) {
+		return false
+	}
+	if specLenEncValue(d, pm) > 1<<22 {
+		return false
+	}
+	n := int(cc)
+	return specTMtypesOK(d, idw, n) &&
+		specTMmetaPos(d, idw, n) == specTMmetaPos0(d, idw)+specTMmetaLen(d, idw) &&
+		len(d)-specTMmetaPos(d, idw, n) >= (n+7)/8
+}
+
+func vc_binlogEvent_TableMap_requires(ev binlogEvent, f BinlogFormat) bool {
+	return specValidFormat(f) && len(f.HeaderSizes) >= 19 && len(ev) >= int(f.HeaderLength) &&
+		specTMWellFormed(ev[f.HeaderLength:], specTMidw(f))
+}
+
+func vc_binlogEvent_TableMap_loop1_inv(c int, pos int, columnCount int, result *TableMap, data []byte, ev binlogEvent, f BinlogFormat, expectedEnd int) bool {
+	idw := specTMidw(f)
+	return c >= 0 && c <= columnCount && pos == specTMmetaPos(data, idw, c) && result != nil &&
+		len(result.Metadata) == columnCount &&
+		vspec.Forall(0, c, func(k int) bool {
+			return result.Metadata[k] == specMeta(data, specTMmetaPos(data, idw, k), data[specTMtypesPos(data, idw)+k])
+		})
+}
+
+func vc_binlogEvent_TableMap_ensures_schema(ev binlogEvent, f BinlogFormat, tm *TableMap, err error) bool {
+	d := []byte(ev[f.HeaderLength:])
+	idw := specTMidw(f)
+	n := specTMcount(d, idw)
+	pn := specTMnamePos(d, idw)
+	return err == nil && tm != nil &&
+		tm.Flags == specLE16(d, idw) &&
+		vspec.EqStr(tm.Database, d[idw+3:idw+3+int(d[idw+2])]) &&
+		vspec.EqStr(tm.Name, d[pn+1:pn+1+int(d[pn])]) &&
+		vspec.Window(tm.Types, d, specTMtypesPos(d, idw), specTMtypesPos(d, idw)+n) &&
+		len(tm.Metadata) == n &&
+		vspec.Forall(0, n, func(k int) bool {
+			return tm.Metadata[k] == specMeta(d, specTMmetaPos(d, idw, k), d[specTMtypesPos(d, idw)+k])
+		}) &&
+		tm.CanBeNull.count == n &&
+		vspec.Window(tm.CanBeNull.data, d, specTMmetaPos(d, idw, n), specTMmetaPos(d, idw, n)+(n+7)/8)
+}
